@@ -165,6 +165,52 @@ def parseEnv (j : Json) : Except String Env := do
     let q ← p.getArr?
     pure (S (← q[0]!.getStr?), S (← q[1]!.getStr?))
 
+
+/-- not part of the Spec: the first clause of `check` that fails, for the replay message -/
+partial def diagnose (W : Char → Bool) (env : Env) (decls : List Item) (incl : List Str) :
+    Expr → List Item → Except String (Str × List Item)
+  | .opaque t, bs => .ok (t, bs)
+  | .const t, bs => .ok (t, bs)
+  | .name id, bs =>
+    match env.get? id with
+    | some t => .ok (t, bs)
+    | none => .error s!"the name {U id} has no representation"
+  | .cpp cv args, bs => do
+    let recv ← match recvOf env cv with
+      | some r => pure r
+      | none => throw "receiver without representation"
+    let mut texts : List Str := []
+    let mut rest := bs
+    for a in args do
+      let (t, r) ← diagnose W env decls incl a rest
+      texts := texts ++ [t]
+      rest := r
+    match rest with
+    | .block lines lhs rhs :: bs2 =>
+      let fn := U cv.varPrefix
+      if rhs ≠ cv.result then throw s!"call of {fn}: the block's last statement assigns '{U rhs}', not the result name '{U cv.result}'"
+      if !(decls.contains (Item.decl (declType cv) lhs)) then
+        throw s!"call of {fn}: the result variable {U lhs} is not declared in the enclosing block with type '{U (declType cv)}' (declared there: {decls.filterMap (fun d => match d with | .decl t n => some (U t ++ " " ++ U n) | _ => none)})"
+      let want := expectedLines W cv recv texts
+      if lines ≠ want then
+        throw s!"call of {fn}: the block's lines are {lines.map U}, the simultaneous whole-word substitution of the template with {(replList cv recv texts).map (fun p => (U p.1, U p.2))} is {want.map U}"
+      match cv.includes.find? (fun i => !incl.contains i) with
+      | some i => throw s!"call of {fn}: include file {U i} is missing"
+      | none => pure (lhs, bs2)
+    | _ => throw s!"call of {U cv.varPrefix}: no block left for this call site ({bs.length} blocks remain before its arguments)"
+  | _, _ => .error "unsupported expression"
+
+def diagnoseAll (W : Char → Bool) (env : Env) (b : Body) (cols : List Expr) : String := Id.run do
+  let mut rest := b.stmts
+  let mut texts : List Str := []
+  for c in cols do
+    match diagnose W env b.decls b.includes c rest with
+    | .ok (t, r) => texts := texts ++ [t]; rest := r
+    | .error e => return e
+  if !rest.isEmpty then return s!"{rest.length} more plain blocks in the enclosing scope than call sites"
+  if texts ≠ b.cols then return s!"the columns are {b.cols.map U}, the result variables of the call sites are {texts.map U}"
+  return "the declared result variables are not pairwise distinct (not fresh): " ++ toString ((b.decls.filterMap declName).map U)
+
 def opSubst (j : Json) : Except String Json := do
   let reW := mkW (getStrD j "reW" "")
   let idW := mkW (getStrD j "idW" "")
@@ -248,12 +294,7 @@ def opQuery (j : Json) : Except String Json := do
           | .ok cols', .ok b =>
             if decide (PipeSpec idW env cols' b) then (true, "")
             else
-              match checkList idW env b.decls b.includes cols' b.stmts with
-              | none => (false, "the blocks of the enclosing scope are not the call sites' blocks: a block is missing or extra, a template line is not the simultaneous whole-word substitution, the result assignment is not last, the result variable is not declared in the enclosing block with the declared type, or an include file is missing")
-              | some (ts, rest) =>
-                if !rest.isEmpty then (false, "more blocks than call sites")
-                else if ts != b.cols then (false, "a column is not the result variable of its call site")
-                else (false, "result variables are not pairwise distinct (not fresh)")
+              (false, diagnoseAll idW env b cols')
           | _, _ => (false, "observation could not be read")
   let out : List (String × Json) :=
     match model with
